@@ -109,6 +109,46 @@ def replay_units(x, out):
     return out
 
 
+def unit_run(u):
+    """run the implementation on what a replay unit records -> (result dict, text describing the command) or None"""
+    q = u.get('query')
+    lines = u.get('input_lines')
+    if isinstance(u.get('input'), str):
+        lines = [u['input']]
+    elif isinstance(u.get('input'), list):
+        lines = u['input']
+    lines = [l for l in (lines or []) if isinstance(l, str) and l != '...']
+    inp = ''.join(lines).encode('utf8')
+    mode = u.get('mode') or u.get('output_mode') or 'json'
+    if not isinstance(mode, str) or mode in ('legacy', 'text'):
+        mode = None
+    if q is None:
+        if not isinstance(u.get('args'), list):
+            return None
+        p = subprocess.run([aglib.AGRIND] + [str(a) for a in u['args']], input=inp, stdout=subprocess.PIPE, stderr=subprocess.PIPE, env=aglib.ENV, timeout=60)
+        return {'rc': p.returncode, 'out': p.stdout, 'err': p.stderr, 'timed_out': False}, 'agrind %s' % ' '.join(repr(str(a)) for a in u['args'])
+    extra = ()
+    if isinstance(u.get('args'), list):          # a recorded command line: the options as they were
+        mode, extra = None, [str(a) for a in u['args']]
+    o = aglib.run_impl_one(q, inp, mode, extra)
+    return o, 'query: %s   (%d input lines, %s)' % (q, len(lines), ('-o ' + mode) if mode else ' '.join(extra) or 'default output')
+
+
+def observe(payload):
+    """what the implementation prints on the recorded input at the time of the failure: a later --replay compares with it"""
+    try:
+        if isinstance(payload, dict) and isinstance(payload.get('query'), str) and 'witness' not in payload and 'observed_stdout' not in payload \
+                and (payload.get('input_lines') is not None or payload.get('input') is not None):
+            r = unit_run(payload)
+            if r and not r[0]['timed_out']:
+                payload = dict(payload)
+                payload['observed_stdout'] = r[0]['out'].decode('utf8', 'replace')[:20000]
+                payload['observed_rc'] = r[0]['rc']
+    except Exception:
+        pass
+    return payload
+
+
 def replay_file(pid, path):
     """bin/agv check Cnn --replay FILE: run what the file recorded against the binary built from /repo as it is now
     (and against the model, when the file carries the model's case); exit 1 when the recorded failure shows again"""
@@ -132,16 +172,6 @@ def replay_file(pid, path):
     units = replay_units({k: v for k, v in j.items() if k != 'run'}, [])
     for n, u in enumerate(units):
         q = u.get('query')
-        lines = u.get('input_lines')
-        if isinstance(u.get('input'), str):
-            lines = [u['input']]
-        elif isinstance(u.get('input'), list):
-            lines = u['input']
-        lines = [l for l in (lines or []) if isinstance(l, str) and l != '...']
-        inp = ''.join(lines).encode('utf8')
-        mode = u.get('mode') or u.get('output_mode') or 'json'
-        if not isinstance(mode, str) or mode in ('legacy', 'text'):
-            mode = None
         wid = u.get('witness')
         if wid:
             w = [w for w in regress.W if w['id'] == wid]
@@ -149,19 +179,21 @@ def replay_file(pid, path):
             print('  [%d] regression witness %s: %s' % (n, wid, why or 'passes now'))
             again += 1 if why else 0
             continue
-        if q is None:
-            p = subprocess.run([aglib.AGRIND] + [str(a) for a in u['args']], input=inp, stdout=subprocess.PIPE, stderr=subprocess.PIPE, env=aglib.ENV, timeout=60)
-            o = {'rc': p.returncode, 'out': p.stdout, 'err': p.stderr, 'timed_out': False}
-            print('  [%d] agrind %s' % (n, ' '.join(repr(str(a)) for a in u['args'])))
-        else:
-            extra = ()
-            if isinstance(u.get('args'), list):          # a recorded command line: the options as they were
-                mode, extra = None, [str(a) for a in u['args']]
-            o = aglib.run_impl_one(q, inp, mode, extra)
-            print('  [%d] query: %s   (%d input lines, %s)' % (n, q, len(lines), ('-o ' + mode) if mode else ' '.join(extra) or 'default output'))
+        r = unit_run(u)
+        if r is None:
+            continue
+        o, descr = r
+        print('  [%d] %s' % (n, descr))
         out = o['out'].decode('utf8', 'replace')
         print('      now: rc=%s%s stdout=%r stderr=%r' % (o['rc'], ' TIMED OUT' if o['timed_out'] else '', out[:400], o['err'].decode('utf8', 'replace')[-300:]))
         decided = False
+        if 'observed_stdout' in u and 'expected_stdout' not in u:
+            decided = True
+            if out[:20000] == u['observed_stdout'] and o['rc'] == u.get('observed_rc'):
+                print('      exactly what was observed when the failure was recorded')
+                again += 1
+            else:
+                print('      differs from what was observed when the failure was recorded (rc=%s stdout=%r)' % (u.get('observed_rc'), u['observed_stdout'][:300]))
         if 'expected_stdout' in u:
             decided = True
             if out[:2000] != u['expected_stdout']:
@@ -281,7 +313,7 @@ def main(pid, tier, seed, replay=None):
     if spec_fail:
         f = spec_fail[0]
         path = aglib.write_replay(pid, {'property': pid, 'kind': 'concrete failing input', 'what': f['what'],
-                                        'replay': f['payload'], 'more': len(spec_fail) - 1})
+                                        'replay': observe(f['payload']), 'more': len(spec_fail) - 1})
         out_lines.append('VIOLATION property=%s replay=%s' % (pid, path))
         violations.append(f['what'])
     elif corr_fail or not proof_ok:
